@@ -54,6 +54,18 @@ class PyList:
         self.fresh = fresh
 
 
+class SDict:
+    """A dict whose keys are known strings: key -> (presence condition term, value).  Insertion order = dict order."""
+    __slots__ = ("entries", "term")
+
+    def __init__(self, entries=None):
+        self.entries = dict(entries or {})
+        self.term = None
+
+    def copy(self):
+        return SDict(self.entries)
+
+
 class SymObj:
     """An object allocated during this activation; attributes are updated strongly."""
     __slots__ = ("cls", "attrs", "oid", "term", "args")
